@@ -364,3 +364,43 @@ def byzantine_packetizer(side, log, mutate_out=None, filter_in=None):
     if filter_in is not None:
         d["filter_in"] = staticmethod(filter_in)
     return type("Byz_" + side, (ByzantinePacketizer,), d)
+
+
+def asymmetric_client(base, enc_c2s, enc_s2c, mac_c2s, mac_s2c):
+    """ADVERSARY-side client Transport whose KEXINIT carries different cipher / MAC lists for the two directions
+    (legal per RFC 4253 7.1, never produced by paramiko itself).  The KEXINIT is rewritten before it is recorded for
+    the exchange hash, and after negotiation this side adopts what an RFC-conforming server must have picked, so the
+    session is consistent and the unmodified SERVER (the victim) ends up with different algorithms per direction."""
+    from paramiko import Message
+    from .wiretap import Reader
+
+    class AsymClient(base):
+        def _send_message(self, data):
+            b = data.asbytes()
+            if b[:1] == b"\x14" and getattr(self, "local_kex_init", None) == b:
+                r = Reader(b)
+                r.byte()
+                cookie = bytes(r.d[r.i:r.i + 16])
+                r.i += 16
+                lists = [r.namelist() for _ in range(10)]
+                tail = r.rest()
+                lists[2], lists[3] = [enc_c2s], [enc_s2c]
+                lists[4], lists[5] = [mac_c2s], [mac_s2c]
+                out = bytes([20]) + cookie
+                for l in lists:
+                    x = ",".join(l).encode()
+                    out += len(x).to_bytes(4, "big") + x
+                out += tail
+                self.local_kex_init = self._latest_kex_init = out
+                data = Message()
+                data.add_bytes(out)
+            return base._send_message(self, data)
+
+        def _parse_kex_init(self, m):
+            r = base._parse_kex_init(self, m)
+            self.local_cipher, self.remote_cipher = enc_c2s, enc_s2c
+            self.local_mac, self.remote_mac = mac_c2s, mac_s2c
+            return r
+
+    AsymClient.__name__ = "AsymClient"
+    return AsymClient
